@@ -112,10 +112,10 @@ def facts_dir(config='FULL', repo=None, quiet=False):
         shutil.rmtree(d, ignore_errors=True)
         os.makedirs(os.path.dirname(d), exist_ok=True)
         os.rename(tmpd, d)
-        # keep the cache small: drop fact sets of other trees (keep the 12 most recent)
+        # keep the cache small: drop fact sets of other trees (keep the 30 most recent)
         base = os.path.join(CACHE, 'facts')
         ents = sorted((os.path.getmtime(os.path.join(base, e)), e) for e in os.listdir(base))
-        for _, e in ents[:-12]:
+        for _, e in ents[:-30]:
             if e != key:
                 shutil.rmtree(os.path.join(base, e), ignore_errors=True)
         info['cached'] = False
